@@ -508,11 +508,28 @@ pub fn generate(check: &str, tier: &str, seed: u64) -> Scenario {
                     _ => Strat::Pct(*cr.pick(&[1, 2, 3]), 600),
                 };
             }
+            // a quarter of the sequential workloads contain one failed file-system call (or a short
+            // episode of them) before the crash: the operation it hits reports the error, and
+            // everything acknowledged before and after it must still survive the kill / power loss
+            let mut fault = None;
+            if threads.len() == 1 {
+                let mut fr = Rng::stream(seed, "crash-fault");
+                if fr.one_in(4) {
+                    let nth = 2 + fr.below(5 * threads[0].len() as u64 + 2);
+                    let mode = match fr.below(6) {
+                        0 => 1u8,
+                        1 => 0x10,
+                        2 => 0x80 | 0x20,
+                        _ => 0,
+                    };
+                    fault = Some((nth, if mode & 0x80 != 0 { libc::ENOSPC } else { libc::EIO }, mode));
+                }
+            }
             Scenario {
                 check: check.to_string(),
                 seed,
                 sim,
-                body: Body::Store(StoreScn { cfg, keys, threads, fault: None, fault_reads: false, max_crash_points: if thorough { 0 } else { 80 }, extra: 0 }),
+                body: Body::Store(StoreScn { cfg, keys, threads, fault, fault_reads: false, max_crash_points: if thorough { 0 } else { 80 }, extra: 0 }),
             }
         }
         "C20" => {
